@@ -106,7 +106,7 @@ def gen(rng, tier):
   case = {'binds': binds, 'macros': macros, 'order2': order2,
           'indent': indent, 'width': rng.randint(indent + 1, 120),
           'bad_ops': [rng.choice(['bind_unknown', 'parse_syntax', 'call_fail',
-                                  'skip_import'])
+                                  'skip_import', 'skip_unknown_ref'])
                       for _ in range(rng.randint(0, 3))],
           'bad_at': rng.randint(0, max(len(binds), 1))}
   case['imports'] = rng.sample(['vsim_mods.alpha', 'vsim_mods.beta',
@@ -217,6 +217,10 @@ def run(case):
         register_one(full)
     for full in PROBES:
       register_one(full)
+    hobj, _ = probes.compile_probe(
+        {'name': 'holder', 'kind': 'fn',
+         'params': [{'n': 'ph', 'k': 'def', 'd': None}]}, hook)
+    gin.configurable('holder', module='zz')(hobj)
 
   def fullname(full):
     return full if '.' in full else 'rootmod.' + full
@@ -227,6 +231,7 @@ def run(case):
     return gin.config_str(max_line_length=W, continuation_indent=I)
 
   late_done = [False]
+  placeholder_bound = [False]
 
   def apply(order, record_texts):
     texts = []
@@ -248,11 +253,22 @@ def run(case):
         for full in LATE_PROBES:
           register_one(full)
         late_done[0] = True
-      if record_texts and pos == case['bad_at']:
+      if pos == case['bad_at']:
         for bad in case['bad_ops']:
+          if not record_texts and bad != 'skip_unknown_ref':
+            # (failed operations leave nothing behind: they are not repeated
+            # when the bindings are applied in the other order; the parse that
+            # leaves a placeholder is)
+            continue
           try:
             if bad == 'skip_import':
               gin.parse_config('import no_such_module_c06\n', skip_unknown=True)
+            elif bad == 'skip_unknown_ref':
+              # leaves a placeholder for the unknown reference in the store: a
+              # value without literal form, to be omitted like any other
+              gin.parse_config('zz.holder.ph = [@nope_unknown_c06(), 1]\n',
+                               skip_unknown=True)
+              placeholder_bound[0] = True
             elif bad == 'bind_unknown':
               gin.bind_parameter('h.nope', 1)
             elif bad == 'parse_syntax':
@@ -261,7 +277,8 @@ def run(case):
               gin.get_configurable('h')(1, 2, 3, 4, 5)
           except Exception:  # pylint: disable=broad-except
             pass
-          texts.append((cs(), late_done[0]))
+          if record_texts:
+            texts.append((cs(), late_done[0]))
       b = case['binds'][bi]
       val = pool[b['vi']]
       obj, text, rep = _materialise(val)
@@ -387,7 +404,8 @@ def run(case):
           'parsing config_str() creates bindings that did not exist: %r' %
           sorted(extra))
       S2 = cs()
-      all_rep = all('obj' not in val for val in model.values())
+      all_rep = all('obj' not in val for val in model.values()) and \
+          not placeholder_bound[0]
       if all_rep and S2 != S:
         v('C06.fixpoint', [],
           'serialising the re-parsed configuration gives a different text:\n'
@@ -499,6 +517,19 @@ def _dynamic(case, v, log, stats):
     expected[(imp['module'], path)] = uid
     if want_b is not None:
       expected[(imp['module'], path, 'b')] = want_b
+  with_singleton = rng.random() < 0.5
+  if with_singleton:
+    # Gin's own configurables (`gin.singleton`) next to dynamically registered
+    # ones
+    text = ('from __gin__ import dynamic_registration\n'
+            'import vq0.other.mod as om\n'
+            'sk/gin.singleton.constructor = @om.consume\n')
+    try:
+      gin.parse_config(text)
+    except Exception as e:  # pylint: disable=broad-except
+      v('C06.dynamic_parse', ['singleton', type(e).__name__],
+        'parsing %r raised %r' % (text, e))
+      return
   try:
     S = gin.config_str(max_line_length=case['width'],
                        continuation_indent=case['indent'])
@@ -516,6 +547,16 @@ def _dynamic(case, v, log, stats):
       'config_str() under dynamic registration does not parse in a reset '
       'world: %s: %s\n%s' % (type(e).__name__, probes.scrub(str(e))[:300], S))
     return
+  if with_singleton:
+    try:
+      ctor = gin.query_parameter('sk/gin.singleton.constructor')
+      if getattr(ctor, 'selector', None) is None or \
+          not ctor.selector.endswith('consume'):
+        raise ValueError('constructor is %r' % (ctor,))
+    except Exception as e:  # pylint: disable=broad-except
+      v('C06.round_trip', ['dynamic', 'singleton-constructor'],
+        'after re-parsing, sk/gin.singleton.constructor: %s\n%s' %
+        (probes.scrub(str(e))[:200], S))
   for key, val in sorted(expected.items(), key=repr):
     if len(key) == 3:
       continue
